@@ -134,6 +134,39 @@ def _state_codec(ctx: Ctx) -> None:
                   "come back changed while the same program over a pipe keeps the in-memory value — observable behaviour differs between transports")
 
 
+def _failed_init_logs(ctx: Ctx, model: ExcModel, ss: FunctionInfo, hi: FunctionInfo) -> None:
+    """A stream method that logs and then fails during init: both transports must agree on whether the buffered
+    logs precede the error.  Decided as sibling agreement of the two init-failure handlers: does the handler hand the
+    call's log sink to whatever writes the error (argument / flush call), or not."""
+    verdict: dict[str, bool] = {}
+    sites: dict[str, ast.AST] = {}
+    for fi, label in ((ss, "pipe"), (hi, "http")):
+        cfg = cfg_of(fi.node)
+        inv = impl_invocations(fi)[0]
+        h = None
+        for t in try_protecting(cfg, inv):
+            h = model.first_covering(t, "Exception")
+            if h is not None:
+                break
+        if h is None:
+            raise AnalysisError(f"anchor=init-failure handler around the implementation call in {fi.fq}")
+        sinks = {t.id for n in walk_scope(fi.node) if isinstance(n, ast.Assign) and isinstance(n.value, ast.Call) and last_attr(n.value) == "_ClientLogSink" for t in n.targets if isinstance(t, ast.Name)}
+        for n in walk_scope(fi.node):
+            if isinstance(n, ast.Assign) and isinstance(n.value, ast.Call) and last_attr(n.value) == "_prepare_method_call" and isinstance(n.targets[0], ast.Tuple) and n.targets[0].elts and isinstance(n.targets[0].elts[0], ast.Name):
+                sinks.add(n.targets[0].elts[0].id)
+        if not sinks:
+            raise AnalysisError(f"anchor=client log sink variable in {fi.fq}")
+        uses = [x for st in h.body for x in walk_scope(st) if isinstance(x, ast.Name) and x.id in sinks]
+        verdict[label] = bool(uses)
+        sites[label] = uses[0] if uses else h
+    agree = verdict["pipe"] == verdict["http"]
+    bad_site = sites["pipe"] if verdict["pipe"] else sites["http"]
+    ctx.check(agree, "RF-TABLE", "failed-init-buffered-logs-agree", ss if verdict["pipe"] else hi, bad_site,
+              ok=f"both init-failure handlers {'write' if verdict['pipe'] else 'drop'} the logs buffered before the failure (the error is {'preceded by them' if verdict['pipe'] else 'the only thing delivered'} on pipe and HTTP alike)",
+              bad=f"the {'pipe' if verdict['pipe'] else 'HTTP'} init-failure handler hands the log sink to the error writer and the {'HTTP' if verdict['pipe'] else 'pipe'} one does not: a stream method that logs and then "
+              "fails during init delivers its log messages on one transport and only the error on the other")
+
+
 def run(ctx: Ctx) -> None:
     ctx.explanation = META["text"]
     ctx.not_decided = "equality of observed traces for arbitrary services, values, caps, codecs and thresholds (runtime quantities); the shm and subprocess variants share the pipe code path."
@@ -147,6 +180,7 @@ def run(ctx: Ctx) -> None:
     so, su, ss = ctx.fn(SERVE_ONE), ctx.fn(SERVE_UNARY), ctx.fn(SERVE_STREAM)
     hu, hi = ctx.fn(HTTP_UNARY), ctx.fn(HTTP_INIT)
     et, pt = ctx.fn(EXCH_TURN), ctx.fn(PROD_TURN)
+    _failed_init_logs(ctx, model, ss, hi)
 
     # ------------------------------------------------------------------ 1. pre-dispatch step order on all three entry paths
     for fi, dispatch in ((so, calls_named(so, "_serve_unary", "_serve_stream")), (hu, impl_invocations(hu)), (hi, impl_invocations(hi))):
